@@ -207,8 +207,9 @@ class _ConnectionBase:
         self._check_closed()
         self._check_writable()
         m = memoryview(buf)
-        # HACK for byte-indexing of non-bytewise buffers (e.g. array.array)
-        if m.itemsize > 1:
+        # HACK for byte-indexing of non-bytewise buffers (e.g. array.array,
+        # multi-dimensional views)
+        if m.itemsize > 1 or m.ndim != 1:
             m = memoryview(bytes(m))
         n = len(m)
         if offset < 0:
